@@ -288,3 +288,16 @@ Print Assumptions c13_dropped_connect_eventually_released.
 Print Assumptions c13_live_acceptor_served_by_next_syn.
 Print Assumptions c13_live_acceptor_served_from_backlog.
 Print Assumptions c13_dead_acceptor_position_held_until_sweep.
+
+(* only abandoned acceptors are waiting: the next SYN sweeps them all out of the queue in one step,
+   is cached for the next accept call, and nothing is refused *)
+Theorem c13_dead_acceptors_swept_by_next_syn : forall s addr m s' e,
+  d_inv s -> d_syns s = [] -> dm_type m = ST_SYN ->
+  find_stream s {| k_addr := addr; k_conn := dm_conn m |} = None ->
+  (forall x, In x (accq s) -> In x (d_dead_acceptors s)) ->
+  streams_full s = false -> has_stream s (syn_key (syn_of addr m)) = false ->
+  dstep s (DoRunOnce [] (ArmRecv addr (Some m))) = (s', e) ->
+  e = [] /\ d_syns s' = [syn_of addr m] /\ accq s' = [] /\ d_streams s' = d_streams s.
+Proof. exact dead_acceptors_swept_by_next_syn. Qed.
+
+Print Assumptions c13_dead_acceptors_swept_by_next_syn.
